@@ -2,7 +2,7 @@
 SPECIFICATION Spec
 CONSTANTS
   Target = "classic"
-  Kinds = {"string", "integer", "float", "bool", "choice", "file", "object", "group", "data", "pgroup", "datavalue"}
+  Kinds = {"string", "integer", "float", "bool", "choice", "file", "object", "group", "data", "pgroup", "datavalue", "gdata", "objectmulti"}
   VaryGroup = FALSE
   VaryDep = TRUE
   ValueSet = "machine"
